@@ -110,6 +110,8 @@ def gen_source(g):
         n = int(g.integers(13, 41))
     r = g.random()
     m = 1 if r < 0.08 else (int(g.integers(2, 9)) if r < 0.45 else int(g.integers(9, 61)))
+    if g.random() < 0.04 and n <= 12:
+        m = int(g.choice([128, 130, 200, 300]))   # more than 127 markers: narrow integer accumulators (int8) would wrap
     content = str(g.choice(["random", "random", "rare", "mono-mixed", "all-mono", "duplicates", "all-het", "inbred"]))
     if content == "all-het" and ploidy == 1:
         content = "random"
